@@ -121,3 +121,44 @@ def runLine (line : String) : String :=
   | _ => "bad-op"
 
 end PestModel.PStateDriver
+
+namespace PestModel.PStateDriver
+open PestModel.PS
+
+def showInt (i : Int) : String := toString i
+
+/-- S-expression of a call tree (inverse of `progOf`). -/
+partial def showProg : Prog → String
+  | .ok => "ok"
+  | .fail => "fail"
+  | .startOfInput => "soi"
+  | .endOfInput => "eoi"
+  | .stackPeek => "peek"
+  | .stackPop => "pop"
+  | .stackMatchPeek => "mpeek"
+  | .stackMatchPop => "mpop"
+  | .stackDrop => "drop"
+  | .sequence p => s!"(seq {showProg p})"
+  | .optional p => s!"(opt {showProg p})"
+  | .repeat_ p => s!"(rep {showProg p})"
+  | .repLoop p => s!"(reploop {showProg p})"
+  | .lookahead b p => s!"(la {if b then 1 else 0} {showProg p})"
+  | .atomic a p => s!"(at {match a with | .atomic => "A" | .compound => "C" | .nonAtomic => "N"} {showProg p})"
+  | .rule r p => s!"(rule {r} {showProg p})"
+  | .stackPush p => s!"(push {showProg p})"
+  | .restoreOnErr p => s!"(roe {showProg p})"
+  | .andThen p q => s!"(and {showProg p} {showProg q})"
+  | .orElse p q => s!"(or {showProg p} {showProg q})"
+  | .matchString s => s!"(str {hexS s})"
+  | .matchInsensitive s => s!"(ins {hexS s})"
+  | .matchRange a b => s!"(rng {a.toNat} {b.toNat})"
+  | .matchCharBy cs => "(cby" ++ String.join (cs.map fun (a, b) => s!" {a} {b}") ++ ")"
+  | .skip n => s!"(skip {n})"
+  | .skipUntil ss => "(until" ++ String.join (ss.map fun s => " " ++ hexS s) ++ ")"
+  | .stackMatchPeekSlice a b d =>
+    s!"(slice {showInt a} {match b with | some x => showInt x | none => "_"} {match d with | .bottomToTop => "B" | .topToBottom => "T"})"
+  | .stackPushLiteral s => s!"(lit {hexS s})"
+  | .tagNode t => s!"(tag {hexS t})"
+  | .call i => s!"(call {i})"
+
+end PestModel.PStateDriver
